@@ -119,6 +119,9 @@ class SimListener:
         while self.backlog:
             seq, st = self.backlog.popleft()
             st._discard_unaccepted()
+        if self._serving_forever_fut is not None and not self._serving_forever_fut.done():
+            self._serving_forever_fut.cancel()
+            self._serving_forever_fut = None
         if self._active == 0:
             self._wakeup()
 
@@ -149,8 +152,26 @@ class SimListener:
     def get_loop(self):
         return self.loop
 
+    _serving_forever_fut = None
+
     async def serve_forever(self):
-        await self.loop.create_future()
+        # as asyncio.base_events.Server.serve_forever (3.12.1): when cancelled it closes the listener and then waits
+        # for wait_closed(), i.e. until every accepted connection has ended
+        if self._serving_forever_fut is not None:
+            raise RuntimeError(f"server {self!r} is already being awaited on serve_forever()")
+        if self.closed:
+            raise RuntimeError(f"server {self!r} is closed")
+        self._serving_forever_fut = self.loop.create_future()
+        try:
+            await self._serving_forever_fut
+        except asyncio.CancelledError:
+            try:
+                self.close()
+                await self.wait_closed()
+            finally:
+                raise
+        finally:
+            self._serving_forever_fut = None
 
     def __repr__(self):
         return f"<SimListener {self.host}:{self.port} owner={self.owner} closed={self.closed}>"
@@ -205,7 +226,14 @@ class SimTransport(transports.Transport):
         return not self.read_paused and not self.closing
 
     def get_write_buffer_size(self):
-        return self._in_flight()
+        # what write() accepted and the kernel has not taken: with a send buffer configured everything beyond it,
+        # else everything while writing is paused (the peer's window is closed); nothing otherwise
+        return self._in_flight() if self._user_buffered() else 0
+
+    def _user_buffered(self):
+        sndbuf = self.net.sndbuf
+        n = self._in_flight()
+        return n > 0 and (self.write_paused or (sndbuf is not None and n > sndbuf))
 
     def get_write_buffer_limits(self):
         return (self._low_water(), self.window)
@@ -287,7 +315,7 @@ class SimTransport(transports.Transport):
 
     def _maybe_resume(self):
         if self._lost_pending:
-            if self._in_flight() == 0:
+            if self._in_flight() <= (self.net.sndbuf or 0):
                 self._lost_pending = False
                 self.loop.call_soon(self._call_connection_lost, None)
             return
@@ -307,7 +335,7 @@ class SimTransport(transports.Transport):
             p.inbox.append([self.net.new_seq(), "eof", b""])
 
     def close(self):
-        if self.closing:
+        if self.closing or self.loop.is_closed():
             return
         self.closing = True
         self.close_time = self.loop.time()
@@ -322,21 +350,27 @@ class SimTransport(transports.Transport):
             # the peer was waiting for us to take its buffered data before it could finish closing: it never will
             p._lost_pending = False
             self.loop.call_soon(p._call_connection_lost, ConnectionResetError(errno.ECONNRESET, "peer closed"))
-        if self.write_paused and p is not None and not p.closed and not p.closing and self._in_flight() > 0:
-            # like a real transport: data accepted by write() but not yet taken by the peer's window is flushed
-            # first; connection_lost (and StreamWriter.wait_closed) happens only after that
+        if self._user_buffered() and p is not None and not p.closed and not p.closing:
+            # like a real transport: data accepted by write() but not yet taken by the kernel (the peer's window is
+            # closed) is flushed first; the socket stays open, and connection_lost (and StreamWriter.wait_closed)
+            # happens only after that
             self._lost_pending = True
             return
         self.loop.call_soon(self._call_connection_lost, None)
 
     _lost_pending = False
+    lost_time = None
+
+    def held(self):
+        """the socket is still open: not closed yet, or closing but waiting for the peer to take buffered data"""
+        return not self.closed and (not self.closing or self._lost_pending)
 
     def abort(self):
         self._force_close(None, rst=True)
 
     def _force_close(self, exc, rst=False):
-        if self.closed:
-            return
+        if self.closed or self.loop.is_closed():
+            return              # (a coroutine finalised after the world was taken down)
         already = self.closing
         self.closing = True
         if self.close_time is None:
@@ -362,6 +396,7 @@ class SimTransport(transports.Transport):
         if self.closed:
             return
         self.closed = True
+        self.lost_time = self.loop.time()
         self.conn_lost_exc = exc
         self.inbox.clear()
         try:
